@@ -161,17 +161,33 @@ impl<'a> Neg for &'a Value {
     }
 }
 
+/// Products and quotients keep the powers of their units within the
+/// range that `^` accepts. Multiplying a result by itself over and over
+/// (`ans * ans`) would otherwise overflow the powers.
+fn powers_in_range(num: &Number) -> Result<(), String> {
+    if num.unit.powers_in_range() {
+        Ok(())
+    } else {
+        Err("Exponent is too large".to_string())
+    }
+}
+
 impl<'a, 'b> Mul<&'b Value> for &'a Value {
     type Output = Result<Value, String>;
 
     fn mul(self, other: &Value) -> Result<Value, String> {
         match (self, other) {
-            (&Value::Number(ref left), &Value::Number(ref right)) => (left * right)
-                .ok_or_else(|| "Bug: Mul should not fail".to_string())
-                .map(Value::Number),
+            (&Value::Number(ref left), &Value::Number(ref right)) => {
+                let product =
+                    (left * right).ok_or_else(|| "Bug: Mul should not fail".to_string())?;
+                powers_in_range(&product)?;
+                Ok(Value::Number(product))
+            }
             (&Value::Number(ref co), &Value::Substance(ref sub))
             | (&Value::Substance(ref sub), &Value::Number(ref co)) => {
-                (sub * co).map(Value::Substance)
+                let product = (sub * co)?;
+                powers_in_range(&product.amount)?;
+                Ok(Value::Substance(product))
             }
             (_, _) => Err("Operation is not defined".to_string()),
         }
@@ -183,11 +199,15 @@ impl<'a, 'b> Div<&'b Value> for &'a Value {
 
     fn div(self, other: &Value) -> Result<Value, String> {
         match (self, other) {
-            (&Value::Number(ref left), &Value::Number(ref right)) => (left / right)
-                .ok_or_else(|| "Division by zero".to_string())
-                .map(Value::Number),
+            (&Value::Number(ref left), &Value::Number(ref right)) => {
+                let quotient = (left / right).ok_or_else(|| "Division by zero".to_string())?;
+                powers_in_range(&quotient)?;
+                Ok(Value::Number(quotient))
+            }
             (&Value::Substance(ref sub), &Value::Number(ref co)) => {
-                (sub / co).map(Value::Substance)
+                let quotient = (sub / co)?;
+                powers_in_range(&quotient.amount)?;
+                Ok(Value::Substance(quotient))
             }
             (_, _) => Err("Operation is not defined".to_string()),
         }
